@@ -125,4 +125,12 @@ def wrun (w : World) : List WOp → World
   | [] => w
   | o :: r => wrun (wstep w o).1 r
 
+/-- the operation submits no proposal carrying a message that spends from the gov module account -/
+def wopNoGovSpend : WOp → Bool
+  | .gov op => opNoGovSpend op
+  | _ => true
+
+/-- `NoGovSpend` for histories of the combined machine -/
+def WNoGovSpend (ops : List WOp) : Bool := ops.all wopNoGovSpend
+
 end FxVerif.Model.C15
